@@ -1,4 +1,10 @@
 import GeomV.C20.Spec
+import GeomV.C20.Agree.Geog
+import GeomV.C20.Agree.Merc
+import GeomV.C20.Agree.Lcc
+import GeomV.C20.Agree.Aea
+import GeomV.C20.Agree.Eqdc
+import GeomV.C20.Agree.Tmerc
 /-!
 # C20 theorems
 
@@ -181,7 +187,8 @@ table, Lat0/1/2, Long0, K0, X0/Y0 in metres, A, B, Rf, Es, Ep2, sphere, ToMeter,
 datum parameters, datum ellipsoid) equals `expected c` as an exact rational.  What is missing is the
 symbolic string-level reasoning (splitting on '+', '=', ',', brackets; `parseFloat (renderDec d)`)
 for arbitrary numerals.  What is proved: the statement for ALL kinds x ALL units x ALL datum flavours
-x ALL spelling switches on one family of generic, pairwise distinct, non-round numbers (so that a
+x ALL spelling switches x the clause-ORDER switches (UNIT first / between / last, PROJECTION last, GEOGCS last,
+TOWGS84 before SPHEROID, AUTHORITY first) x near-miss datum names (WGS_1972, WGS_1984_Variant) on one family of generic, pairwise distinct, non-round numbers (so that a
 mis-mapped PARAMETER name, a missed unit conversion of the false origin, a wrong alias or a wrong
 datum decision makes the kernel reject the proof), and `agree c st` is evaluated in exact arithmetic
 by the judge on every generated well-formed case (DIFF when false).
@@ -191,7 +198,15 @@ by the judge on every generated well-formed case (DIFF when false).
 fields, namely those intended (`expected`): kernel-checked on the family `family k` for every kind. -/
 theorem C20_parse_agree_partial :
     ∀ k ∈ [Kind.geog, .merc, .lcc, .aea, .eqdc, .tmerc], ∀ x ∈ family k, (wellFormed x.1 && agree x.1 x.2) = true := by
-  decide +kernel
+  intro k hk
+  simp only [List.mem_cons, List.not_mem_nil, or_false] at hk
+  rcases hk with rfl | rfl | rfl | rfl | rfl | rfl
+  · exact agree_geog
+  · exact agree_merc
+  · exact agree_lcc
+  · exact agree_aea
+  · exact agree_eqdc
+  · exact agree_tmerc
 
 /-- non-vacuity of `wellFormed` and sensitivity of `agree`: swapping the two standard parallels in
 the description changes the intended reading -/
